@@ -1,19 +1,23 @@
 #!/bin/bash
-# tools/try_mutant.sh <patch.diff> <ID> [tier]   -- apply a seeded change to /repo, run the check, undo.
+# tools/try_mutant.sh <patch.diff> <ID> [tier]   -- apply a seeded change to the repository copy ($STBEM_REPO, default
+# /repo), run the check from this /verif copy, undo.  TRY_OUT names the file that keeps the check's output.
 P="$(realpath "$1")"; ID="$2"; TIER="${3:-quick}"
-cd /repo || exit 9
-git diff --quiet || { echo "/repo not clean"; exit 9; }
+REPO="${STBEM_REPO:-/repo}"; export STBEM_REPO="$REPO"
+VERIF="$(cd "$(dirname "$0")/.." && pwd)"
+TRY_OUT="${TRY_OUT:-/tmp/try_mutant.out}"
+cd "$REPO" || exit 9
+git diff --quiet || { echo "$REPO not clean"; exit 9; }
 git apply "$P" || { echo "patch does not apply"; exit 9; }
-cd /verif
+cd "$VERIF"
 # evidence files under git must come from the unchanged tree: keep the current one aside
-cp -f "evidence/$ID.json" "/tmp/evidence_keep_$ID.json" 2>/dev/null
+KEEP="$(mktemp)"; cp -f "evidence/$ID.json" "$KEEP" 2>/dev/null
 START=$(date +%s)
-./check "$ID" --tier "$TIER" > /tmp/try_mutant.out 2>&1
+./check "$ID" --tier "$TIER" > "$TRY_OUT" 2>&1
 RC=$?
 END=$(date +%s)
-git -C /repo checkout -- .
-cp -f "/tmp/evidence_keep_$ID.json" "evidence/$ID.json" 2>/dev/null
+git -C "$REPO" checkout -- .
+[ -s "$KEEP" ] && cp -f "$KEEP" "evidence/$ID.json"; rm -f "$KEEP"
 rm -f replays/${ID}_*.json
-grep -E "^(VIOLATION|KNOWN-FINDING|INCONCLUSIVE|OK)" /tmp/try_mutant.out | cut -c1-400 | head -8
-grep -E "^  " /tmp/try_mutant.out | cut -c1-300 | head -4
+grep -E "^(VIOLATION|KNOWN-FINDING|INCONCLUSIVE|OK)" "$TRY_OUT" | cut -c1-400 | head -8
+grep -E "^  " "$TRY_OUT" | cut -c1-300 | head -4
 echo "exit=$RC wall=$((END-START))s"
